@@ -62,7 +62,8 @@ type timeline struct {
 	MLS    int    `json:"seeder_L_tti_ticks"`
 	Pieces int    `json:"pieces"`
 	// t = one tick, p = release one piece write on L, r = RemoveTorrent on L,
-	// s = let S finish the piece transfer it has open (slow-serve family only).
+	// s = let S finish the piece transfer it has open (slow-serve family only),
+	// H / C = hold / release L's dispatcherCompleteEvent (late-completion family).
 	Steps string `json:"steps"`
 	// revived family: L's first scheduler generation receives Gen1 pieces and is
 	// stopped; after Between ticks a second generation starts on the same store,
@@ -86,10 +87,10 @@ func genTimeline(r *rand.Rand, id int) *timeline {
 	tl := &timeline{ID: id, Pieces: 3 + r.Intn(6), MLS: 2 + r.Intn(4)}
 	var m int
 	switch x := r.Intn(20); {
-	case x < 6:
+	case x < 5:
 		tl.Family, tl.MS = "seeder", 2+r.Intn(5)
 		m = tl.MS
-	case x < 10:
+	case x < 9:
 		// Transfers take virtual time: S opens the piece, the clock runs, then S
 		// finishes (closes the reader). The idle clock must start at the end.
 		tl.Family, tl.MS = "slow-serve", 2+r.Intn(5)
@@ -111,15 +112,39 @@ func genTimeline(r *rand.Rand, id int) *timeline {
 		sb.WriteString(strings.Repeat("t", 8))
 		tl.Steps = sb.String()
 		return tl
-	case x < 14:
+	case x < 13:
 		tl.Family, tl.ML = "leecher", 2+r.Intn(5)
 		m = tl.ML
-	case x < 18:
+	case x < 16:
 		tl.Family, tl.MS, tl.ML = "mixed", 2+r.Intn(5), 2+r.Intn(5)
 		m = tl.MS
 		if r.Intn(2) == 0 {
 			m = tl.ML
 		}
+	case x < 18:
+		// The download takes at least the seeder idle limit; the completion
+		// notice of the last piece is still in flight (held) when preemption ticks
+		// are applied, and is released afterwards.
+		tl.Family = "late-completion"
+		tl.MLS = 2 + r.Intn(4)
+		tl.Pieces = 3 + r.Intn(3)
+		var sb strings.Builder
+		ticks := 0
+		for k := 0; k < tl.Pieces; k++ {
+			g := 1 + r.Intn(2)
+			if k == tl.Pieces-1 && ticks+g < tl.MLS+1 {
+				g = tl.MLS + 1 - ticks
+			}
+			sb.WriteString(strings.Repeat("t", g))
+			ticks += g
+			if k == tl.Pieces-1 {
+				sb.WriteString("H")
+			}
+			sb.WriteString("p")
+		}
+		sb.WriteString(strings.Repeat("t", 1+r.Intn(2)) + "C" + strings.Repeat("t", 4))
+		tl.Steps = sb.String()
+		return tl
 	default:
 		tl.Family, tl.ML = "revived", 2+r.Intn(4)
 		tl.Gen1 = 1 + r.Intn(tl.Pieces-1)
@@ -325,6 +350,7 @@ func (cr *caseRun) teardown() {
 	}()
 	// Schedulers first: a piece write still parked at the gate belongs to a
 	// torrent instance that must not touch a live generation's files.
+	cr.L.gate.ReleaseAll()
 	cr.S.peer.Close()
 	cr.L.peer.Close()
 	for _, p := range cr.extra {
@@ -693,7 +719,10 @@ func (cr *caseRun) execute(tracker *rig.Tracker) {
 			}
 			if received2 == cr.tl.Pieces {
 				// L completed: wait for its completion event so that the probe is settled.
-				if !cr.L.gate.Wait(watchdog, func(count func(string) rig.Counters) bool { return count(rig.EvComplete).Applied >= 1 }) {
+				if !cr.L.gate.Wait(watchdog, func(count func(string) rig.Counters) bool {
+					n := count(rig.EvComplete)
+					return n.Applied >= 1 || n.Parked >= 1 // parked: the notice is in flight (held)
+				}) {
 					cr.fail("watchdog: completion event not applied on L")
 					return
 				}
@@ -724,6 +753,26 @@ func (cr *caseRun) execute(tracker *rig.Tracker) {
 			}
 			preS, preL = cr.probe(cr.S), cr.probe(cr.L)
 			outcome.WriteString("s ")
+
+		case 'H':
+			cr.L.gate.Hold(rig.EvComplete)
+
+		case 'C':
+			if !cr.L.gate.Held(rig.EvComplete) {
+				continue
+			}
+			cr.L.gate.Release(rig.EvComplete)
+			if !cr.L.gate.Wait(watchdog, func(count func(string) rig.Counters) bool {
+				n := count(rig.EvComplete)
+				return n.Parked == 0 && n.Sent == n.Entered && n.Applied == n.SentOK
+			}) {
+				cr.fail("watchdog: released completion notice not applied")
+				return
+			}
+			cr.trace = append(cr.trace, fmt.Sprintf("t=%d completion notice of L released", cr.vnow.Load()))
+			cr.run.Count("late_completion_notices_released", 1)
+			preS, preL = cr.probe(cr.S), cr.probe(cr.L)
+			outcome.WriteString("C ")
 
 		case 'r':
 			if !preL.st.Present || preL.st.Complete {
@@ -906,7 +955,7 @@ func TestC18(t *testing.T) {
 		"PRNG-generated timelines on a real seeder + real leecher sharing a mock clock: 3-8 pieces, each released to the leecher after a gap of "+
 			"0, 1, m-1, m, m+1 or m+2 preemption intervals (idle limit = m+0.5 intervals, m in 2..6) which also fixes when the seeder serves the next piece; "+
 			"families: seeder idle limit only / slow-serve (the seeder holds each piece reader open for 1..m intervals before finishing the transfer) / "+
-			"leecher idle limit only / both / revived (a first leecher generation leaves a partial download, the second generation's control is created "+
+			"leecher idle limit only / both / late-completion (the download takes at least the seeder idle limit and the completion notice of the last piece is held while preemption ticks are applied) / revived (a first leecher generation leaves a partial download, the second generation's control is created "+
 			"by an incoming conn of a remote leecher, optionally joined by a local Download, then idles out); optional RemoveTorrent of the in-progress download; 8 trailing ticks. "+
 			"A timeline is non-trivial when at least one piece was served or received after virtual time 0 (revived: the revived control was dropped and judged) "+
 			"and at least one keep-or-drop decision was observed on a present torrent; distinct = distinct timeline specs.")
